@@ -15,7 +15,15 @@ Model driver for C12 (same op lines as harness/c12.cpp).
                                    -> dl<records>:<hash> | dlerr,  da<records>:<hash> | daerr
      R                             close and reopen the named file (":f" impls) -> r
   w <implPos> <implNeg|dummy> <ignore_errors 0|1> <tok>...   NodeLocationsForWays
-     n<id>:<x>:<y>  node;   w<ref>,<ref>,...  way -> x:y,-,...[!]   ("-" undefined, "!" not_found thrown)
+     n<id>:<x>:<y>                 handler.node()
+     w<ref>[@<x>:<y>],<ref>,...    a NEW way object (the k-th of the line, k = 0,1,..) whose node refs carry the
+                                   given locations (none = undefined) is passed to handler.way()
+                                   -> <ref>=<x>:<y>,<ref>=-,...[!]   ("-" undefined, "!" not_found thrown, "." no refs)
+     W<k>                          the k-th way object, as the handler left it, is passed to handler.way() again
+     I                             handler.ignore_errors()
+     C                             handler.clear()
+     X                             handler and indexes destroyed, new ones of the same types constructed
+                                   (ignore_errors as it was); the way objects live on
 -/
 import Osmium.Model.IndexMap
 import Osmium.Generated.C12Constants
@@ -106,6 +114,15 @@ def St.getNoexcept : St → Nat → Loc
   | .flex n s, id => (iFlexMem n).getNoexcept s id
   | .dummy, _ => locE
 
+def St.clear : St → St
+  | .denseMem a => .denseMem (iDenseMem.clear a)
+  | .denseMmap f mv => .denseMmap f (iDenseMmap.clear mv)
+  | .sparseMem a => .sparseMem (iSparseMem.clear a)
+  | .sparseMmap f mv => .sparseMmap f (iSparseMmap.clear mv)
+  | .sparseMap t => .sparseMap (iSparseMap.clear t)
+  | .flex n s => .flex n ((iFlexMem n).clear s)
+  | .dummy => .dummy
+
 def St.dumpAsList : St → Option (Array (Nat × Loc))
   | .denseMem a => iDenseMem.dumpAsList a
   | .denseMmap _ mv => iDenseMmap.dumpAsList mv
@@ -134,6 +151,7 @@ def anyImpl : Impl Loc where
   getNoexcept := St.getNoexcept
   dumpAsList := St.dumpAsList
   dumpAsArray := St.dumpAsArray
+  clear := St.clear
 
 def locTok (l : Loc) : String := s!"{l.x}:{l.y}"
 
@@ -243,9 +261,24 @@ def runToks (c : St) (toks : List String) : List String :=
 
 /-! NodeLocationsForWays -/
 
-def wayTok (r : List Loc × Bool) : String :=
-  let body := if r.1.isEmpty then "." else ",".intercalate (r.1.map fun l => if l = locE then "-" else locTok l)
+def wayTok (r : List (NRef Loc) × Bool) : String :=
+  let body := if r.1.isEmpty then "." else
+    ",".intercalate (r.1.map fun p => s!"{p.1}=" ++ (if p.2 = locE then "-" else locTok p.2))
   if r.2 then body ++ "!" else body
+
+/-- `<ref>` or `<ref>@<x>:<y>` -/
+def parseRef (t : String) : Option (NRef Loc) :=
+  match t.splitOn "@" with
+  | [r] => r.toInt?.map fun r => (r, locE)
+  | [r, l] =>
+    match l.splitOn ":" with
+    | [x, y] => do
+      let r ← r.toInt?
+      let x ← x.toInt?
+      let y ← y.toInt?
+      some (r, ⟨x, y⟩)
+    | _ => none
+  | _ => none
 
 def parseEv (tok : String) : Option (Ev Loc) :=
   match tok.front with
@@ -253,7 +286,11 @@ def parseEv (tok : String) : Option (Ev Loc) :=
   | 'w' =>
     let body := (tok.drop 1).toString
     if body.isEmpty then some (.way [])
-    else ((body.splitOn ",").mapM String.toInt?).map .way
+    else ((body.splitOn ",").mapM parseRef).map .way
+  | 'W' => (tok.drop 1).toString.toNat?.map .again
+  | 'I' => if tok == "I" then some .ignoreErrors else none
+  | 'C' => if tok == "C" then some .clear else none
+  | 'X' => if tok == "X" then some .fresh else none
   | _ => none
 
 def step (line : String) : String :=
@@ -266,7 +303,7 @@ def step (line : String) : String :=
     match mkSt ip, mkSt ineg, toks.mapM parseEv with
     | some p, some n, some evs =>
       let s : NLFW anyImpl anyImpl := { pos := p, neg := n, ignoreErrors := ign == "1" }
-      " ".intercalate ("ok" :: (NLFW.run Loc.ok s evs).2.map wayTok)
+      " ".intercalate ("ok" :: (NLFW.run Loc.ok s { h := s } evs).2.map wayTok)
     | _, _, _ => "bad-op"
   | _ => "bad-op"
 
